@@ -621,6 +621,27 @@ func putAllAttrs(m pcommon.Map, val string, n int) {
 }
 
 func rampTraces(td ptrace.Traces, r *Ramp) {
+	if r.Kind == "containers" {
+		// every value is a resource + scope of its own: nested dictionary columns of the main
+		// record (resource.schema_url, scope.name, scope.version, schema_url, status.status_message)
+		for v := 0; v < r.N; v++ {
+			val := fmt.Sprintf("v%06d", r.Base+v)
+			rs := td.ResourceSpans().AppendEmpty()
+			rs.SetSchemaUrl("ru" + val)
+			rs.Resource().SetDroppedAttributesCount(uint32(v + 1))
+			ss := rs.ScopeSpans().AppendEmpty()
+			ss.SetSchemaUrl("su" + val)
+			ss.Scope().SetName("sn" + val)
+			ss.Scope().SetVersion("sv" + val)
+			for u := 0; u < r.Uses; u++ {
+				sp := ss.Spans().AppendEmpty()
+				sp.SetName("a")
+				sp.TraceState().FromRaw("ts" + val)
+				sp.Status().SetMessage("sm" + val)
+			}
+		}
+		return
+	}
 	ss := td.ResourceSpans().AppendEmpty().ScopeSpans().AppendEmpty()
 	n := 0
 	for v := 0; v < r.N; v++ {
@@ -832,6 +853,25 @@ func (l Letter) BuildLogs() plog.Logs {
 				} else {
 					lr.Attributes().PutInt("k", 1)
 				}
+			}
+		}
+		return ld
+	}
+	if l.Ramp != nil && l.Ramp.Kind == "containers" {
+		r := l.Ramp
+		for v := 0; v < r.N; v++ {
+			val := fmt.Sprintf("v%06d", r.Base+v)
+			rl := ld.ResourceLogs().AppendEmpty()
+			rl.SetSchemaUrl("ru" + val)
+			rl.Resource().SetDroppedAttributesCount(uint32(v + 1))
+			sl := rl.ScopeLogs().AppendEmpty()
+			sl.SetSchemaUrl("su" + val)
+			sl.Scope().SetName("sn" + val)
+			sl.Scope().SetVersion("sv" + val)
+			for u := 0; u < r.Uses; u++ {
+				lr := sl.LogRecords().AppendEmpty()
+				lr.SetSeverityText("st" + val)
+				lr.SetEventName("en" + val)
 			}
 		}
 		return ld
@@ -1441,6 +1481,27 @@ func (l Letter) BuildMetrics() pmetric.Metrics {
 				} else {
 					dp.Attributes().PutInt("k", 1)
 				}
+			}
+		}
+		return md
+	}
+	if l.Ramp != nil && l.Ramp.Kind == "containers" {
+		r := l.Ramp
+		for v := 0; v < r.N; v++ {
+			val := fmt.Sprintf("v%06d", r.Base+v)
+			rm := md.ResourceMetrics().AppendEmpty()
+			rm.SetSchemaUrl("ru" + val)
+			rm.Resource().SetDroppedAttributesCount(uint32(v + 1))
+			sm := rm.ScopeMetrics().AppendEmpty()
+			sm.SetSchemaUrl("su" + val)
+			sm.Scope().SetName("sn" + val)
+			sm.Scope().SetVersion("sv" + val)
+			for u := 0; u < r.Uses; u++ {
+				m := sm.Metrics().AppendEmpty()
+				m.SetName("m")
+				m.SetDescription("d" + val)
+				m.SetUnit("u" + val)
+				m.SetEmptyGauge().DataPoints().AppendEmpty().SetIntValue(1)
 			}
 		}
 		return md
